@@ -5,7 +5,9 @@ canonical observation that coq/Lib/DeferredKShow.v prints for the model.
 program = {"canc": [canceller, ...],            one per Deferred: ["none"] | ["nothing"] | ["cb", z] | ["eb", e] | ["raise", e]
            "ops":  [op, ...]}
 op      = ["add", d, cb, eb] | ["cb", d, z] | ["eb", d, e] | ["pause", d] | ["unpause", d] | ["cancel", d]
-cb, eb  = None | ["ret", value] | ["raise", e] | ["pass"]
+cb, eb  = None | beh | ["script", [sop, ...], beh]      a script runs kernel operations INSIDE the callback, then behaves as beh
+beh     = ["ret", value] | ["raise", e] | ["pass"]
+sop     = ["add", d, beh|None, beh|None] | ["cb", d, z] | ["eb", d, e] | ["pause", d] | ["unpause", d] | ["cancel", d]
 value   = ["N"] | ["I", z] | ["F", e] | ["D", i]
 
 Observation (all API-level: callback arguments, exceptions by class, the public attributes called / result /
@@ -68,6 +70,10 @@ def show_value(v, index) -> str:
     if isinstance(v, Failure):
         if v.type is defer.CancelledError:
             return "EC"
+        if v.type is defer.AlreadyCalledError:
+            return "EA"
+        if v.type is RecursionError:
+            return "ER"
         for n, cls in _EXC.items():
             if v.type is cls:
                 return f"E{n}"
@@ -95,6 +101,7 @@ class Runner:
         self.index = {id(d): i for i, d in enumerate(self.ds)}
         self.keep = []                   # keep Failures alive: no GC-time logging during a case
         self.in_canceller = None
+        self.f_logged = set()            # Deferreds whose firing has been put into the event list
 
     def _canceller(self, i, c):
         if c[0] == "none":
@@ -122,35 +129,82 @@ class Runner:
             return Failure(exc_class(v[1])())
         return self.ds[v[1]]
 
+    def _behave(self, beh, arg):
+        if beh[0] == "ret":
+            return self._make_value(beh[1])
+        if beh[0] == "raise":
+            raise exc_class(beh[1])()
+        return arg
+
     def _fn(self, d, k, beh):
         def f(arg):
             self.events.append(f"R{d}.{k}({show_value(arg, self.index)})")
-            if beh[0] == "ret":
-                return self._make_value(beh[1])
-            if beh[0] == "raise":
-                raise exc_class(beh[1])()
-            return arg
+            if beh[0] == "script":
+                for sop in beh[1]:
+                    self._sop(sop)           # exceptions (AlreadyCalledError, a canceller's) leave the callback
+                return self._behave(beh[2], arg)
+            return self._behave(beh, arg)
         self.funcs[id(f)] = k
         self.keep.append(f)
         return f
+
+    def _add(self, di, cb, eb):
+        defer = self.defer
+        d = self.ds[di]
+        k = self.nadd
+        self.nadd += 1
+        if cb is not None and cb == eb:
+            d.addBoth(self._fn(di, k, cb))
+        elif cb is not None and eb is not None:
+            d.addCallbacks(self._fn(di, k, cb), self._fn(di, k, eb))
+        elif cb is not None:
+            d.addCallback(self._fn(di, k, cb))
+        elif eb is not None:
+            d.addErrback(self._fn(di, k, eb))
+        else:
+            d.addCallbacks(defer.passthru)
+
+    def _fire_wrap(self, fn):
+        """run fn; put the token Fi of the Deferred it fired (if any) where the firing happened: at the position the
+        events had when fn started, or right after the Ki of its own canceller.  Firings nested deeper (scripts of
+        the callbacks that ran) have been placed by their own wrappers."""
+        before = [d.called for d in self.ds]
+        pos = len(self.events)
+        try:
+            return fn()
+        finally:
+            for i, d in enumerate(self.ds):
+                if d.called and not before[i] and i not in self.f_logged:
+                    at = pos + 1 if (len(self.events) > pos and self.events[pos] == f"K{i}") else pos
+                    self.events.insert(at, f"F{i}")
+                    self.f_logged.add(i)
+
+    def _sop(self, o):
+        """one kernel operation from inside a callback"""
+        kind, di = o[0], o[1]
+        if di >= len(self.ds):
+            return
+        d = self.ds[di]
+        if kind == "add":
+            self._fire_wrap(lambda: self._add(di, o[2], o[3]))
+        elif kind == "cb":
+            self._fire_wrap(lambda: d.callback(o[2]))
+        elif kind == "eb":
+            self._fire_wrap(lambda: d.errback(exc_class(o[2])()))
+        elif kind == "pause":
+            d.pause()
+        elif kind == "unpause":
+            self._fire_wrap(d.unpause)
+        elif kind == "cancel":
+            self._fire_wrap(d.cancel)
+        else:
+            raise ValueError(kind)
 
     def _drive(self, kind, d, di, o, before):
         defer = self.defer
         tail = None
         if kind == "add":
-            k = self.nadd
-            self.nadd += 1
-            cb, eb = o[2], o[3]
-            if cb is not None and cb == eb:
-                d.addBoth(self._fn(di, k, cb))
-            elif cb is not None and eb is not None:
-                d.addCallbacks(self._fn(di, k, cb), self._fn(di, k, eb))
-            elif cb is not None:
-                d.addCallback(self._fn(di, k, cb))
-            elif eb is not None:
-                d.addErrback(self._fn(di, k, eb))
-            else:
-                d.addCallbacks(defer.passthru)
+            self._add(di, o[2], o[3])
         elif kind in ("cb", "eb"):
             try:
                 if kind == "cb":
@@ -191,7 +245,7 @@ class Runner:
         d = self.ds[di]
         tail = None
         try:
-            tail = self._drive(kind, d, di, o, before)
+            tail = self._fire_wrap(lambda: self._drive(kind, d, di, o, before))
         except RecursionError:
             tail = "RE"
         except BaseException as e:  # noqa: B036 - the point is to see what escapes
@@ -200,14 +254,6 @@ class Runner:
                 raise
             tail = f"!{n}"
         evs = list(self.events)
-        fired = [f"F{i}" for i, x in enumerate(self.ds) if x.called and not before[i]]
-        # the firing precedes every callback run; inside cancel() it follows the canceller invocation
-        pos = 0
-        for j, e in enumerate(evs):
-            if e.startswith("K"):
-                pos = j + 1
-                break
-        evs[pos:pos] = fired
         if tail:
             evs.append(tail)
         return ",".join(evs) if evs else "-"
@@ -341,6 +387,50 @@ def coq_op(o) -> str:
     return {"pause": "OPause", "unpause": "OUnpause", "cancel": "OCancel"}[k] + f" {o[1]}%nat"
 
 
+def has_scripts(case) -> bool:
+    return any(o[0] == "add" and any(b is not None and b[0] == "script" for b in o[2:4]) for o in case["ops"])
+
+
+def coq_sop(o) -> str:
+    k = o[0]
+    if k == "add":
+        return f"SAdd {o[1]}%nat {coq_beh(o[2])} {coq_beh(o[3])}"
+    if k == "cb":
+        return f"SCallback {o[1]}%nat ({o[2]})%Z"
+    if k == "eb":
+        return f"SErrback {o[1]}%nat ({o[2]})%Z"
+    return {"pause": "SPause", "unpause": "SUnpause", "cancel": "SCancel"}[k] + f" {o[1]}%nat"
+
+
+def coq_rbeh(b) -> str:
+    if b is None:
+        return "None"
+    if b[0] == "script":
+        return f"(Some (RB {coq_list(map(coq_sop, b[1]), 'sop')} {coq_beh(b[2])[6:-1]}))"
+    return f"(Some (RB (@nil sop) {coq_beh(b)[6:-1]}))"
+
+
+def coq_rop(o) -> str:
+    k = o[0]
+    if k == "add":
+        return f"ROAdd {o[1]}%nat {coq_rbeh(o[2])} {coq_rbeh(o[3])}"
+    if k == "cb":
+        return f"ROCallback {o[1]}%nat ({o[2]})%Z"
+    if k == "eb":
+        return f"ROErrback {o[1]}%nat ({o[2]})%Z"
+    return {"pause": "ROPause", "unpause": "ROUnpause", "cancel": "ROCancel"}[k] + f" {o[1]}%nat"
+
+
+def coq_rprogram(case) -> str:
+    return f"({coq_list(map(coq_canc, case['canc']), 'canceller')}, {coq_list(map(coq_rop, case['ops']), 'rop')})"
+
+
+def coq_any_program(case) -> str:
+    """script-free programs go to the kernel DeferredK (which carries the theorems), programs with scripts to the
+    re-entrant kernel DeferredKR"""
+    return ("inr " + coq_rprogram(case)) if has_scripts(case) else ("inl " + coq_program(case))
+
+
 def coq_program(case) -> str:
     return f"({coq_list(map(coq_canc, case['canc']), 'canceller')}, {coq_list(map(coq_op, case['ops']), 'op')})"
 
@@ -372,6 +462,73 @@ def rand_beh(rng, nd, d, p_none=0.0):
     if r < 0.78:
         return ["raise", rng.choice([0, 1, 2] + BASE_CLASSES)]
     return ["pass"]
+
+
+def rand_sop(rng, nd, fwd_only=True):
+    d = rng.randrange(nd)
+    r = rng.random()
+    if r < 0.45:
+        b = rand_simple_beh(rng, nd, d if fwd_only else None)
+        return ["add", d, b, None] if rng.random() < 0.6 else ["add", d, b, rand_simple_beh(rng, nd, d if fwd_only else None)]
+    if r < 0.65:
+        return ["cb", d, rng.randrange(10)]
+    if r < 0.72:
+        return ["eb", d, rng.randrange(3)]
+    if r < 0.80:
+        return ["pause", d]
+    if r < 0.90:
+        return ["unpause", d]
+    return ["cancel", d]
+
+
+def rand_simple_beh(rng, nd, d):
+    """forward-only returned Deferreds (index above d) when d is given: results never form a cycle"""
+    r = rng.random()
+    if r < 0.3 and d is not None and d + 1 < nd:
+        return ["ret", ["D", rng.randrange(d + 1, nd)]]
+    if r < 0.6:
+        return ["ret", rng.choice([["N"], ["I", rng.randrange(10)], ["F", rng.randrange(3)]])]
+    if r < 0.75:
+        return ["raise", rng.randrange(3)]
+    return ["pass"]
+
+
+def rand_script_beh(rng, nd, d):
+    return ["script", [rand_sop(rng, nd) for _ in range(rng.randrange(1, 4))], rand_simple_beh(rng, nd, d)]
+
+
+def rand_script_program(rng, nd, nops, cancellers=True, p_script=0.4, pauses=True):
+    """programs whose callbacks run kernel operations; returned Deferreds point forward only (no cyclic results)"""
+    canc = [rand_canc(rng) if cancellers else ["none"] for _ in range(nd)]
+    ops = []
+    for _ in range(nops):
+        d = rng.randrange(nd)
+        r = rng.random()
+        if r < 0.5:
+            mk = (lambda: rand_script_beh(rng, nd, d) if rng.random() < p_script else rand_simple_beh(rng, nd, d))
+            shape = rng.random()
+            if shape < 0.55:
+                ops.append(["add", d, mk(), None])
+            elif shape < 0.7:
+                ops.append(["add", d, None, mk()])
+            elif shape < 0.85:
+                b = mk()
+                ops.append(["add", d, b, b])
+            else:
+                ops.append(["add", d, mk(), mk()])
+        elif r < 0.72:
+            ops.append(["cb", d, rng.randrange(10)])
+        elif r < 0.8:
+            ops.append(["eb", d, rng.randrange(3)])
+        elif r < 0.86 and pauses:
+            ops.append(["pause", d])
+        elif r < 0.93 and pauses:
+            ops.append(["unpause", d])
+        elif cancellers:
+            ops.append(["cancel", d])
+        else:
+            ops.append(["cb", d, rng.randrange(10)])
+    return {"canc": canc, "ops": ops}
 
 
 def rand_canc(rng):
@@ -421,6 +578,13 @@ class _RD:
         self.paused = 0
         self.swallow = False    # one late result is ignored after a canceller-less cancel()
         self.canc = canc
+        self.running = False    # one of its callbacks is executing right now
+
+
+class _Raise(Exception):
+    """an exception travelling out of a kernel operation into the callback that executed it"""
+    def __init__(self, e):
+        self.e = e              # class number, or "A" AlreadyCalledError, "R" RecursionError
 
 
 def ref_show(v):
@@ -428,61 +592,92 @@ def ref_show(v):
         return "N"
     if isinstance(v, tuple):
         if v[0] == "F":
-            return "EC" if v[1] == "C" else "E%d" % v[1]
+            return {"C": "EC", "A": "EA", "R": "ER"}.get(v[1]) or "E%d" % v[1]
         return "D%d" % v[1]
     return str(v)
 
 
 class Reference:
+    """Rules: callbacks run in the order added, each with the result of the previous one; a Failure goes to the
+    errback side; a returned Deferred with a plain result (and not paused) gives its result up, otherwise the
+    Deferred waits for it; the Deferred waited on, when it gets to the waiter's place in its own chain, hands its
+    result over and lets the waiter run (recursion here, an explicit stack in the implementation).
+    Re-entrancy: while a callback of d executes, "run d's callbacks" does nothing (an add to d only appends; the loop
+    that is executing the callback picks the new entry up afterwards); any other Deferred that becomes runnable from
+    inside a callback (it is fired, unpaused, or gets a callback while fired) runs its whole chain right there."""
+
     def __init__(self, canc):
         self.ds = [_RD(c) for c in canc]
         self.events = []
         self.nadd = 0
 
-    # -- running callbacks: recursion where the implementation keeps an explicit stack
     def run(self, i):
+        """d._runCallbacks()"""
+        if not self.ds[i].running:
+            self._walk(i)
+
+    def _walk(self, i):
         d = self.ds[i]
-        while not d.paused and d.callbacks:
+        if d.paused:
+            return
+        while d.callbacks:
+            # (a pause() of d made by one of d's own callbacks does not stop the callbacks that follow; it is looked
+            # at when d is next (re)entered: on unpause, on an add, or after a waiting Deferred has run)
             item = d.callbacks.pop(0)
             if item[0] == "cont":
                 c = self.ds[item[1]]
                 c.result, d.result = d.result, None      # hand the result over
                 c.paused -= 1                            # ... unpause the waiting Deferred and let it run
-                self.run(item[1])
+                self._walk(item[1])
+                if d.paused:
+                    return
                 continue
             _, k, cb, eb = item
             beh = eb if (isinstance(d.result, tuple) and d.result[0] == "F") else cb
             if beh is not None:
-                self.events.append(f"R{i}.{k}({ref_show(d.result)})")
-                if beh[0] == "ret":
-                    v = beh[1]
-                    d.result = None if v[0] == "N" else v[1] if v[0] == "I" else (v[0], v[1])
-                elif beh[0] == "raise":
-                    d.result = ("F", beh[1])             # ANY exception class becomes a failure result
+                arg = d.result
+                self.events.append(f"R{i}.{k}({ref_show(arg)})")
+                script, plain = (beh[1], beh[2]) if beh[0] == "script" else ([], beh)
+                d.running = True
+                try:
+                    for sop in script:
+                        self.sop(sop)
+                    if plain[0] == "ret":
+                        v = plain[1]
+                        new = None if v[0] == "N" else v[1] if v[0] == "I" else (v[0], v[1])
+                    elif plain[0] == "raise":
+                        new = ("F", plain[1])            # ANY exception class becomes a failure result
+                    else:
+                        new = arg
+                except _Raise as ex:
+                    new = ("F", ex.e)                    # an exception out of a script operation, too
+                finally:
+                    d.running = False
+                d.result = new
             r = d.result
             if isinstance(r, tuple) and r[0] == "D" and r[1] < len(self.ds):
                 x = self.ds[r[1]]
-                plain = x.result is not _NO and not (isinstance(x.result, tuple) and x.result[0] == "D")
-                if plain and not x.paused:
+                plain_res = x.result is not _NO and not (isinstance(x.result, tuple) and x.result[0] == "D")
+                if plain_res and not x.paused:
                     d.result, x.result = x.result, None   # already has a result: take it
                 else:
                     d.paused += 1                         # wait for it
                     x.callbacks.append(("cont", i))
                     return
 
-    def fire(self, i, v):
+    def fire(self, i, v) -> str:
+        """-> 'ok' | 'swallowed' | 'already'"""
         d = self.ds[i]
         if d.called:
             if d.swallow:
                 d.swallow = False
-                self.events.append("S")
-            else:
-                self.events.append("A")
-            return
+                return "swallowed"
+            return "already"
         d.called = True
         d.result = v
         self.events.append(f"F{i}")
         self.run(i)
+        return "ok"
 
     # -- cancel(): a fired Deferred whose current result is a Deferred forwards the cancellation to it, to any
     #    depth; the innermost unfired Deferred is the one that is cancelled
@@ -502,12 +697,12 @@ class Reference:
                 return "RE", hops
 
     def cancel(self, i):
+        """may raise _Raise (the canceller's exception, or RecursionError for cyclic results)"""
         t, _ = self.cancel_target(i)
         if t is None:
             return
         if t == "RE":
-            self.events.append("RE")
-            return
+            raise _Raise("R")
         d = self.ds[t]
         c = d.canc
         if c[0] == "none":
@@ -520,33 +715,63 @@ class Reference:
         elif c[0] == "eb":
             self.fire(t, ("F", c[1]))
         elif c[0] == "raise":
-            self.events.append(f"X{c[1]}")
+            raise _Raise(c[1])
         else:
             self.fire(t, ("F", "C"))
 
+    def add(self, i, cb, eb):
+        d = self.ds[i]
+        d.callbacks.append(("pair", self.nadd, cb, eb))
+        self.nadd += 1
+        if d.called:
+            self.run(i)
+
+    def unpause(self, i):
+        d = self.ds[i]
+        d.paused -= 1
+        if not d.paused and d.called:
+            self.run(i)
+
+    def sop(self, o):
+        """a kernel operation executed inside a callback: exceptions travel into the callback"""
+        kind, i = o[0], o[1]
+        if i >= len(self.ds):
+            return
+        if kind == "add":
+            self.add(i, o[2], o[3])
+        elif kind in ("cb", "eb"):
+            if self.fire(i, o[2] if kind == "cb" else ("F", o[2])) == "already":
+                raise _Raise("A")
+        elif kind == "pause":
+            self.ds[i].paused += 1
+        elif kind == "unpause":
+            self.unpause(i)
+        elif kind == "cancel":
+            self.cancel(i)
+        else:
+            raise ValueError(kind)
+
     def op(self, o) -> str:
+        """a top-level operation: exceptions are reported as tokens"""
         self.events = []
         kind, i = o[0], o[1]
         if i >= len(self.ds):
             return "-"
-        d = self.ds[i]
         if kind == "add":
-            d.callbacks.append(("pair", self.nadd, o[2], o[3]))
-            self.nadd += 1
-            if d.called:
-                self.run(i)
-        elif kind == "cb":
-            self.fire(i, o[2])
-        elif kind == "eb":
-            self.fire(i, ("F", o[2]))
+            self.add(i, o[2], o[3])
+        elif kind in ("cb", "eb"):
+            how = self.fire(i, o[2] if kind == "cb" else ("F", o[2]))
+            if how != "ok":
+                self.events.append("A" if how == "already" else "S")
         elif kind == "pause":
-            d.paused += 1
+            self.ds[i].paused += 1
         elif kind == "unpause":
-            d.paused -= 1
-            if not d.paused and d.called:
-                self.run(i)
+            self.unpause(i)
         elif kind == "cancel":
-            self.cancel(i)
+            try:
+                self.cancel(i)
+            except _Raise as ex:
+                self.events.append("RE" if ex.e == "R" else f"X{ex.e}")
         else:
             raise ValueError(kind)
         return ",".join(self.events) if self.events else "-"
